@@ -34,6 +34,8 @@ func c09CfgFor(fault string) *DeclCfg {
 		cfg.Types = append(cfg.Types, TypeSpec{W: WFunc0Err}, TypeSpec{W: WFunc0Err}, TypeSpec{K: KString, W: WFunc1Err}, TypeSpec{K: KInt, W: WFunc1Err})
 	case "bad-env-choice":
 		cfg.PChoices = 60
+	case "bad-value":
+		cfg.Types = append(cfg.Types, TypeSpec{K: KInt, W: WMap, MapKey: KString}, TypeSpec{K: KFloat64, W: WMap, MapKey: KString}, TypeSpec{K: KDuration, W: WMap, MapKey: KString})
 	case "bad-env-value":
 		cfg.Types = append(cfg.Types, TypeSpec{K: KInt, W: WSlice}, TypeSpec{K: KFloat64, W: WSlice}, TypeSpec{K: KInt, W: WSlicePtr})
 	case "bad-positional":
@@ -85,6 +87,22 @@ func c09Run(c *Ctx) {
 	for _, cm := range sc.Exp.Chain {
 		for _, o := range cm.OwnOpts() {
 			if o.Required {
+				if c.W.Tier != "race" && !o.T.IsFunc() && !o.T.IsFlag() && o.T.W != WMap && sc.Exp.Seen[o] == 0 && r.Chance(1, 4) {
+					// satisfied through its environment variable (for a string option also by the empty text)
+					v := GenValueText(r, o)
+					if o.T.K == KString && len(o.Choices) == 0 && (o.T.W == WScalar || o.T.W == WPtr) && r.Bool() {
+						v = ""
+					}
+					if !strings.ContainsRune(v, 0) {
+						o.Env = fmt.Sprintf("VH_C09R_%d_%d", c.K, o.ID)
+						o.EnvDelim = ""
+						o.EnvSet = &v
+						key := d.FullEnv(o)
+						os.Setenv(key, v)
+						c.Defer(func() { os.Unsetenv(key) })
+						continue
+					}
+				}
 				if !sc.SupplyOption(r, o, true) {
 					c.Unspec("required option cannot be supplied in this context")
 					return
@@ -294,7 +312,7 @@ func injectFault(c *Ctx, r *Rand, d *Decl, sc *Scenario, fault string) (items []
 			if fault == "bad-choice" && len(o.Choices) > 0 && !o.T.IsFunc() {
 				cands = append(cands, o)
 			}
-			if fault == "bad-value" && len(o.Choices) == 0 && !o.T.IsFunc() && o.T.W != WMap && (isIntKind(o.T.K) || o.T.K == KFloat64 || o.T.K == KDuration) {
+			if fault == "bad-value" && len(o.Choices) == 0 && !o.T.IsFunc() && (isIntKind(o.T.K) || o.T.K == KFloat64 || o.T.K == KDuration) {
 				cands = append(cands, o)
 			}
 		}
@@ -306,6 +324,13 @@ func injectFault(c *Ctx, r *Rand, d *Decl, sc *Scenario, fault string) (items []
 		bad := r.Pick([]string{"zz", "", "1x", " 1", "99999999999999999999999x", "0x"})
 		if fault == "bad-choice" {
 			bad = "not-a-choice"
+		}
+		if o.T.W == WMap {
+			// a map whose element type is numeric: an entry without a colon has no value, a bad value after the colon
+			bad = r.Pick([]string{"cpu", "k1", "k1:zz", "k1:", "k1:1x"})
+			if isIntKind(o.T.MapKey) {
+				bad = r.Pick([]string{"7", "7:zz", "7:", "x:1"})
+			}
 		}
 		var tok string
 		if o.Long != "" && scopeAt.Long[d.FullLong(o)] == o {
